@@ -6,7 +6,7 @@ import warnings
 from .common import Oracle, Slow, Suite, deadline, errname, merge
 
 GEN_UNITS = ["Handlers", "PyUnicode", "ContextPolicy"]
-LEAN_TARGETS = ["PasslibVerif.Props.C04"]
+LEAN_TARGETS = ["PasslibVerif.Props.C04", "PasslibVerif.Props.C04Str", "PasslibVerif.Props.C04StrExamples", "PasslibVerif.Props.C04StrExamples2"]
 ASSUMPTIONS = [
     "facts about individual hash strings (which schemes claim it, its parsed cost, scheme-specific flags, whether the password verifies) are atoms supplied by the real hashers; their correctness is C01/C07/C17",
     "float vary_rounds enters as the integer the interpreter computes",
@@ -463,7 +463,12 @@ def correspond(ctx):
     o_f = Oracle(ctx, "scheme-own-update-rule")
     for tag, inp, ok, obs, exp in scheme_flag_cases(rng, 120 if not ctx.thorough else 2500):
         o_f.check(tag, ok, inp, obs, exp)
-    return merge(s_cfg, s_dec, o_b, o_f)
+    # ---- the same decisions on real hash strings: the context model composed with the C01 hasher models (suite `cstr`)
+    from . import c04_str
+
+    s_str = Suite(ctx, "context-over-hasher-models", batch=2000, model_canon=c04_str.canon)
+    c04_str.model_suite(ctx, s_str, n=60 if not ctx.thorough else 1500)
+    return merge(s_cfg, s_dec, o_b, o_f, s_str)
 
 
 # ------------------------------------------------------------------------------------------
